@@ -19,7 +19,7 @@ CICADA = os.path.join(hsupport.VERIF, 'build/bin/debug/cicada')
 BUDGET = {'quick': 900, 'thorough': 1500}
 BOUNDS = {'quick': dict(max_nodes=5, depth=2, while_k=2, sym_plain=2), 'thorough': dict(max_nodes=6, depth=3, while_k=3, sym_plain=3)}
 ASSUMPTIONS = [
-    'scripts are enumerated ASTs over {command, if / else if / else, for over 1-3 words, while, break, continue} up to the node and depth bound (thorough: trees of <= 5 nodes at depth 3 in both spellings, plus a VERIF_SEED-selected third of the 6-node trees at depth 2), rendered in the newline spelling and in the `; then` / `; do` spelling; plus 16 directed deep chains (break / continue two and three if-levels below their loop); exit statuses of all commands and conditions are symbolic',
+    'the quick tier explores a VERIF_SEED-selected sample (about 700) of the scripts within its bound, not all of them', 'scripts are enumerated ASTs over {command, if / else if / else, for over 1-3 words, while, break, continue} up to the node and depth bound (thorough: trees of <= 4 nodes at depth 3 in both spellings, a VERIF_SEED-selected half of the 5-node trees at depth 3, plus a VERIF_SEED-selected fortieth of the 6-node trees at depth 2), rendered in the newline spelling and in the `; then` / `; do` spelling; plus 16 directed deep chains (break / continue two and three if-levels below their loop); exit statuses of all commands and conditions are symbolic',
     'pest is modelled (PEG evaluator over /repo/src/parsers/grammar.pest) - trusted base; every script is also parsed by the real parser in the binary replay of violations',
     'stub execute::run_command_line: records its line and returns an arbitrary status (conditions: always symbolic; plain commands: the first sym_plain executions symbolic, later ones concrete since only `set -e` (C15) reads them); a `while` condition is forced to fail after K successful iterations (environment contract) so every path terminates',
     'unbalanced scripts (a block keyword missing) are negatives: the oracle demands a diagnostic and that no command after the unbalanced construct runs',
@@ -146,7 +146,7 @@ def instances(tier, seed):
                     out.append(dict(name='deep%d/%s-%s-%d%s/nl' % (idx, loop, kw, levels, '-else' if with_else else ''), ast=lab, style='nl', kind='wf', keep=True))
     # the 'then' spelling parses to the same tree: thorough explores it for every tree of <= 5 nodes, the newline spelling for all
     if tier == 'thorough':
-        out = [o for k, o in enumerate(out) if o.get('keep') or len(list(walk(o['ast']))) <= 5 or (o['style'] == 'nl' and (k + seed) % 3 == 0)]
+        out = [o for k, o in enumerate(out) if o.get('keep') or len(list(walk(o['ast']))) <= 4 or (o['style'] == 'nl' and len(list(walk(o['ast']))) <= 5 and (k + seed) % 2 == 0) or (o['style'] == 'nl' and (k + seed) % 40 == 0)]
     # textual variants of small trees: blank lines, tab indentation, no final newline, break/continue outside a loop
     small = [o for o in out if o['style'] == 'nl' and 2 <= len(list(walk(o['ast']))) <= 3]
     for o in small:
@@ -267,6 +267,7 @@ def body_fn(inst, b, seed_=0):
                 wcount[line] = wcount.get(line, 0) + 1
                 if wcount[line] > K: I.ctx.assume(st != 0)       # environment: the condition eventually fails
             statuses.append(st)
+            hlib.set_field(p, shv, 'previous_status', len(statuses))      # the environment's progress is part of the shell state (keeps the repeated-state hang detector from seeing a loop whose only change is in the stub)
             cr = hlib.mk_struct(p, 'CommandResult', gid=0, status=st, stdout=RString(), stderr=RString())
             return RVec([cr])
         I.stubs['run_command_line'] = rcl_stub; I.stubs['execute::run_command_line'] = rcl_stub
